@@ -117,7 +117,7 @@ def main():
         "hooks": {"guard": "NOTQMAIL_VERIF", "enable": "none needed: harnesses #include the unmodified sources of a scratch copy of the working tree and interpose libc at link time",
                   "baseline_off_cmd": "make -C /repo -j8 it && make -C /repo/tests test", "source_commits": [], "add_only": True},
         "engines": [{"name": "lean4-proof+correspondence", "path": "lean/", "serves_properties": sorted(CHECKS),
-                     "kind_free_text": "Lean 4 theorems about executable models (lean/Nq), tied to /repo by a translator for constants/tables (tools/extract.py) and by differential correspondence harnesses (harness/*.c) that run the unmodified C from a sanitised scratch build of the working tree against the compiled models (lean/Drv)"}],
+                     "kind_free_text": "Lean 4 theorems about executable models (lean/Nq), tied to /repo by a translator (tools/extract.py: constants, tables, switch maps; and, for qmail-smtpd.c blast(), the function body itself, translated from the clang-14 AST into the deep embedding lean/Nq/CMini.lean on every run and proved equal to the hand-written automaton) and by differential correspondence harnesses (harness/*.c) that run the unmodified C from a sanitised scratch build of the working tree against the compiled models (lean/Drv)"}],
         "checks": checks,
         "notes": "See DESIGN.md. known_findings.json lists repaired defects (fix: commits in /repo) and open findings.",
         "not_applicable": na,
